@@ -49,7 +49,12 @@ def assemble(u, vxout, outpath):
             'use vstd::prelude::*;']
     parts.append('\n'.join(head) + '\n')
     for f in u.prelude:
-        parts.append('// ======== prelude: %s\n' % f + _read_fragment(f))
+        frag = _read_fragment(f)
+        # @omit NAME...: opaque stand-ins of the shared preludes that this unit replaces by extracted real items
+        for name in getattr(u, 'omit', []):
+            frag = re.sub(r'(opaque!\([^)]*?)\b%s\b\s*,?\s*' % re.escape(name), r'\1', frag)
+            frag = '\n'.join(l for l in frag.split('\n') if not re.search(r'pub struct Ex\w*\(%s\);' % re.escape(name), l))
+        parts.append('// ======== prelude: %s\n' % f + frag)
     for f in u.specs:
         parts.append('// ======== specs: %s\n' % f + _read_fragment(f))
     parts.append('// ======== extracted from the working tree by vx (rules R1..R12 only)\nverus! {\n')
